@@ -21,6 +21,7 @@ NAMESET = z3.ArraySort(sym.Name, sym.B)
 
 
 def install(reg, src):
+    install_bounded(reg)
     from .compiler_c import NV, IDXS, DOMOF, make_index_map, index_map_of_varlist, names_of_varlist
     from .seqtheory import named_exists, named_forall, seqs, _once, skolem, add_index
     L = reg.lp
@@ -539,6 +540,16 @@ def grad_hyp(sp, obj, w, E, PV):
     entry the solver compiled (of the objective or of its negation) is inside its domain."""
     r = sp.ref(obj)
     return z3.And(sp.S.REG(r, w, E, PV), GDOM(r, w, E, PV))
+
+
+def install_bounded(reg):
+    for prop_ in ("C05", "C08"):
+        reg.bounded_checks.setdefault(prop_, []).append({
+            "name": "lp-extract", "script": "bounded_lp.py", "timeout": 600,
+            "bound": "150 (quick) / 2000 (thorough) seeded random linear problems, <= 4 constraints, expression depth <= 3, "
+                     "3 random points each; shapes restricted to those on which the proved extraction routines are exact",
+            "why": "LinearProgramExtractor.extract (assembly of A_ub / A_eq rows, sign normalisation, right-hand sides, bounds "
+                   "list, variable order) is stated but not proved; the coefficient and constant extraction it calls are"})
 
 
 def install_scipy(reg, src):
